@@ -950,6 +950,7 @@ def run_totality(facts, run, prop):
     used = set()
     n_sites = 0
     n_explicit = 0
+    closure_undecided = []
     bulk_counts = {}
     bulk_sites = {}
     moved = []
@@ -963,6 +964,11 @@ def run_totality(facts, run, prop):
                 if n_sites % 211 == 0:
                     run.sample("%s @%s %s: %s" % (a.fn["name"], s.line, s.kind, s.why))
         for s in T.fn_open_sites(fid):
+            if a.fn["kind"] == "Closure" and (s.kind in BULK_KINDS or s.kind == "copylen-mismatch"):
+                # inside a closure the facts about its parameters (the items an iterator adaptor passes) and about what it
+                # captures are not available to the prover: index / range / length obligations there are undecided
+                closure_undecided.append("%s %s" % (a.fn["name"], s.disc))
+                continue
             if s.kind in EXPLICIT_KINDS or s.kind.startswith("assert-"):
                 n_explicit += 1
                 ent = None
@@ -1073,7 +1079,7 @@ def run_totality(facts, run, prop):
             if in_scope:
                 check_caller_established(T, facts, e, paths if prop != "ALL" else None, cfg, prop, run)
     run.stats = getattr(run, "stats", {})
-    run.stats.update(entries=len(entries), fns_in_scope=len(paths), sites=n_sites, explicit_sites=n_explicit,
+    run.stats.update(entries=len(entries), fns_in_scope=len(paths), sites=n_sites, explicit_sites=n_explicit, closure_undecided=closure_undecided[:20],
                      table_entries_used=len(used), moved=moved[:20])
     return T
 
